@@ -364,10 +364,18 @@ func c20(args []string) error {
 			out := make([]float64, npts)
 			step := 1 + r.Intn(int(3*alpha.f()*16+64)/npts+1)
 			cur := 0
+			tiny := r.Intn(3) == 0 // a geometric lower tail first: the prefactor underflows there for large shapes
 			for k := range xs {
-				xs[k] = dyadic{cur, 16}
+				if tiny && k < 12 {
+					xs[k] = dyadic{1, 1 << uint(50-4*k)} // 2^-50 .. 2^-6
+				} else {
+					if cur == 0 && tiny {
+						cur = 1
+					}
+					xs[k] = dyadic{cur, 16}
+					cur += 1 + r.Intn(2*step)
+				}
 				out[k] = models.IncompleteGamma(xs[k].f(), alpha.f(), lg)
-				cur += 1 + r.Intn(2*step)
 			}
 			w.add(fmt.Sprintf("mk 5 %d (1#1)%%Q %s false true %s %s", npts, qList([]dyadic{alpha}), flList(out), qList(xs)),
 				map[string]interface{}{"op": "IncompleteGamma", "alpha": alpha.f(), "xmax": xs[npts-1].f()})
